@@ -125,13 +125,61 @@ def all_tokens(stmts):
     return toks
 
 
-def with_braces(rng, stmts):
-    """`hue 5` -> `hue {5}` etc.: wrap single values in braces"""
+def with_braces(rng, stmts, p=0.6):
+    """`hue 5` -> `hue {5}` etc.: wrap single values in braces in EVERY position the grammar calls
+    a value — register values, assigned / printed / returned values, `printf` values, routine
+    arguments (also inside bracketed calls), `if` conditions, loop counts, bounds and cycle
+    starts, the items of `repeat in … and …` lists and the group / location names in them, zone
+    and row / column numbers, the name after `get`.  (Not values: the operands of set/on/off, the
+    constant of a macro definition, time patterns.)"""
     def rv(x):
-        if x is not None and x[0] in ('num', 'var', 'reg', 'macro') and rng.random() < 0.6 \
+        if x is None:
+            return x
+        if x[0] in ('num', 'var', 'reg', 'macro', 'str') and rng.random() < p \
                 and not (x[0] == 'num' and x[1] < 0):
             return ('expr', x)
+        if x[0] == 'call':
+            return ('call', x[1], [rv(a) for a in x[2]]) + tuple(x[3:])
         return x
+
+    def rng_(r):
+        return None if r is None else (rv(r[0]), rv(r[1]))
+
+    def with_part(w):
+        if w is None:
+            return None
+        if w[0] == 'from':
+            return ('from', w[1], rv(w[2]), rv(w[3]))
+        return ('cycle', w[1], rv(w[2]))
+
+    def hdr(h):
+        f = h[0]
+        if f == 'count':
+            return ('count', rv(h[1]))
+        if f == 'range':
+            return ('range', h[1], rv(h[2]), rv(h[3]))
+        if f == 'interp':
+            return ('interp', rv(h[1]), h[2], rv(h[3]), rv(h[4]))
+        if f == 'cycle':
+            return ('cycle', rv(h[1]), h[2], rv(h[3]))
+        if f == 'while':
+            return ('while', rv(h[1])) + tuple(h[2:])
+        if f in ('all', 'groups', 'locations'):
+            return (f, h[1], with_part(h[2]))
+        if f == 'in':
+            return ('in', [(k, rv(n)) for k, n in h[1]], h[2], with_part(h[3]))
+        return h
+
+    def operand(op):
+        k = op[0]
+        if k == 'zone':
+            return ('zone', op[1], rv(op[2]), rv(op[3]))
+        if k == 'matrix':
+            return ('matrix', op[1], rng_(op[2]), rng_(op[3]), op[4])
+        if k == 'matrix_block':
+            return ('matrix_block', op[1], with_braces(rng, op[2], p))
+        return op
+
     out = []
     for s in stmts:
         k = s[0]
@@ -139,14 +187,25 @@ def with_braces(rng, stmts):
             out.append((k, s[1], rv(s[2])))
         elif k == 'assign':
             out.append((k, s[1], rv(s[2])))
-        elif k == 'print':
+        elif k in ('print', 'println', 'return'):
             out.append((k, rv(s[1])))
+        elif k == 'printf':
+            out.append((k, s[1], [rv(a) for a in s[2]]))
+        elif k == 'call':
+            out.append((k, s[1], [rv(a) for a in s[2]]) + tuple(s[3:]))
+        elif k == 'get':
+            out.append((k, rv(s[1])))
+        elif k == 'stage':
+            out.append((k, rng_(s[1]), rng_(s[2]), s[3]))
+        elif k == 'action' and isinstance(s[2], list):
+            out.append((k, s[1], [operand(o) for o in s[2]]))
         elif k == 'if':
-            out.append((k, s[1], with_braces(rng, s[2]), None if s[3] is None else with_braces(rng, s[3])))
+            out.append((k, rv(s[1]), with_braces(rng, s[2], p),
+                        None if s[3] is None else with_braces(rng, s[3], p)))
         elif k == 'repeat':
-            out.append((k, s[1], with_braces(rng, s[2])))
+            out.append((k, hdr(s[1]), with_braces(rng, s[2], p)))
         elif k == 'define':
-            out.append((k, s[1], s[2], with_braces(rng, s[3])))
+            out.append((k, s[1], s[2], with_braces(rng, s[3], p)))
         else:
             out.append(s)
     return out
@@ -312,6 +371,76 @@ def main():
         else:
             chk.nontrivial_case('br:' + bracketed)
         lex_texts.append(bracketed)
+    # ---- 2c. curly braces round a single value in every position the grammar calls a value
+    value_pairs = [
+        ('repeat in "a" and "b" as l print l', 'repeat in {"a"} and {"b"} as l print l'),
+        ('repeat in "a" and "b" and "c" as l print l', 'repeat in "a" and {"b"} and "c" as l print l'),
+        ('assign g "G" repeat in group g as l print l', 'assign g "G" repeat in group {g} as l print l'),
+        ('assign g "G" repeat in "c" and group g and location g as l print l',
+         'assign g "G" repeat in {"c"} and group {g} and location {g} as l print l'),
+        ('assign n "a" repeat in n and "b" as l print l', 'assign n "a" repeat in {n} and "b" as l print l'),
+        ('repeat in "a" and "b" as l with i from 1 to 2 hue i',
+         'repeat in {"a"} and {"b"} as l with i from {1} to {2} hue {i}'),
+        ('repeat in group "G" as l with i cycle 90 hue i', 'repeat in group {"G"} as l with i cycle {90} hue i'),
+        ('repeat 3 hue 5', 'repeat {3} hue {5}'),
+        ('repeat with i from 1 to 5 hue i', 'repeat with i from {1} to {5} hue {i}'),
+        ('repeat 3 with i from 1 to 5 hue i', 'repeat {3} with i from {1} to {5} hue i'),
+        ('repeat 3 with i cycle 90 hue i', 'repeat {3} with i cycle {90} hue i'),
+        ('repeat all as x with i from 1 to 5 hue i', 'repeat all as x with i from {1} to {5} hue i'),
+        ('repeat group as x with i cycle 10 hue i', 'repeat group as x with i cycle {10} hue i'),
+        ('assign x 1 repeat while x assign x 0', 'assign x 1 repeat while {x} assign x {0}'),
+        ('set "a" zone 1 2', 'set "a" zone {1} {2}'), ('set "a" zone 1', 'set "a" zone {1}'),
+        ('set "a" row 1 2 column 3', 'set "a" row {1} {2} column {3}'),
+        ('set "a" begin stage row 0 column 1 2 end', 'set "a" begin stage row {0} column {1} {2} end'),
+        ('define f with a b begin return a end print [f 1 2] f 3 4',
+         'define f with a b begin return {a} end print [f {1} {2}] f {3} {4}'),
+        ('print [round 2.5] hue [floor saturation]', 'print [round {2.5}] hue [floor {saturation}]'),
+        ('printf "{} {} {x}" 1 hue', 'printf "{} {} {x}" {1} {hue}'),
+        ('print "s" println "t" println 5 print 5', 'print {"s"} println {"t"} println {5} print {5}'),
+        ('get "a" assign n "b" get n', 'get {"a"} assign n "b" get {n}'),
+        ('if 1 hue 5 else hue 6', 'if {1} hue {5} else hue {6}'),
+        ('define m 7 hue m duration m', 'define m 7 hue {m} duration {m}'),
+        ('define f begin return 5 end define h begin return end', 'define f begin return {5} end define h begin return end'),
+        ('time 5 duration 2.5 kelvin hue', 'time {5} duration {2.5} kelvin {hue}'),
+    ]
+    for plain, braced in value_pairs:
+        a, b = compile_program(plain), compile_program(braced)
+        chk.count()
+        na = ('accept', peephole(a[1])) if a[0] == 'accept' else a
+        nb = ('accept', peephole(b[1])) if b[0] == 'accept' else b
+        if a[0] != 'accept' or na != nb:
+            chk.violation('braces-change-program',
+                          'braces round a single value change the result: `{}` vs `{}`: {}'.format(
+                              plain[-50:], braced[-60:], str(nb)[:80] if nb[0] != 'accept' else 'different program'),
+                          {'plain': plain, 'braced': braced})
+        else:
+            chk.nontrivial_case('bv:' + braced)
+        lex_texts.append(braced)
+    # a list of lights is visited in the order written, whatever form its items have
+    lights3 = [{'label': n, 'group': g, 'location': 'L', 'kind': 'plain'}
+               for n, g in (('a', 'G'), ('b', 'G'), ('c', 'H'))]
+    NM = 'define nm with n begin return "a" end '
+    order_cases = [
+        (NM + 'repeat in [nm 1] and "b" as l print l', ['a', 'b']),
+        (NM + 'repeat in "b" and [nm 1] and {"c"} as l print l', ['b', 'a', 'c']),
+        (NM + 'repeat in {"c"} and "b" and [nm 1] as l print l', ['c', 'b', 'a']),
+        ('assign g "G" repeat in group {g} and "c" as l print l', ['a', 'b', 'c']),
+        ('assign g "H" repeat in "a" and group {g} as l print l', ['a', 'c']),
+        ('define gn begin return "H" end repeat in group [gn] and "a" as l print l', ['c', 'a']),
+        ('assign z 0 repeat in {"b"} and "a" as l print l', ['b', 'a']),
+    ]
+    for script, want in order_cases:
+        res = runimpl.run_script(script, [dict(x) for x in lights3])
+        chk.count()
+        outs = [e[1] for e in res.events if e[0] == 'O'] if res.compiled else None
+        if outs != want or res.fault is not None:
+            chk.violation('braces-change-program',
+                          'a braced / bracketed item of a `repeat in` list is not visited in its place: '
+                          '`{}` printed {} instead of {}'.format(
+                              script[-60:], outs if res.compiled else 'rejected: ' + res.errors.strip()[:60], want),
+                          {'script': script, 'expected_output': want})
+        else:
+            chk.nontrivial_case('ord:' + script)
     # ---- 3. a quoted string may contain anything but a double quote or a line break
     chars = [chr(c) for c in range(32, 127) if chr(c) != '"'] + ['\t', 'é', 'Ω', '日', '\x7f', '\xa0']
     strings = [''.join(rng.choice(chars) for _ in range(rng.randint(1, 10)))
